@@ -29,7 +29,7 @@ Proof. intros [Hc _]. apply canonb_spec. exact Hc. Qed.
 Lemma kind_okb_ok k : kind_okb k = true -> XEdit.kind_ok k.
 Proof.
   destruct k as [w n| |]; cbn [kind_okb XEdit.kind_ok]; try (intros _; exact I).
-  rewrite andb_true_iff. intros [Hw Hn]. split; [apply std_widthb_ok; exact Hw|apply N.ltb_lt; exact Hn].
+  rewrite andb_true_iff. intros [Hw Hn]. split; [apply std_widthb_ok; exact Hw|apply N.leb_le; exact Hn].
 Qed.
 
 Lemma all_lt_Forall b l : all_lt b l = true -> Forall (fun x => x < b) l.
